@@ -652,6 +652,11 @@ def _run(v, rng, exe, R, tablesdir, tier):
     v.obligation("correspondence: _lou_resolveTable == Lean defaultTableResolver on every scenario (%d RESOLVE calls)" % len(mref),
                  not corr_bad, "; ".join(corr_bad[:4]))
     v.obligation("correspondence: _lou_getTablePath == Lean getTablePath (%d environments)" % len(tp_cases), not tp_bad, "; ".join(tp_bad[:4]))
+    # ---- probe, recorded only: LOUIS_TABLEPATH longer than the 2048-byte stack buffer of _lou_getTablePath
+    # (outside the model: tablePathFits; a memory-safety matter, not one of C20's clauses)
+    pr = common.run_harness(exe, ["ENV LOUIS_TABLEPATH " + hx("/" + "x" * 2100), "TABLEPATH"], R)
+    if pr.fault:
+        v.notes.append("probe (not part of the oracle): LOUIS_TABLEPATH of 2101 bytes -> %s in %s" % (pr.fault["kind"], pr.fault["frame"]))
     v.cov["exhaustive"] = True
     v.cov["distribution"] = dist
     v.cov["scenarios"] = {"exhaustive_family": nstd, "special": len(scns) - nstd - nrand, "random": nrand, "resolve_calls_vs_model": len(mref),
